@@ -384,6 +384,30 @@ def check_tables(ctx, lane, scenes, egos, div, index):
                     g = r.ground_truth_object
                     if g is not None and V.label_of(g) != "false_positive":
                         dbl[(g.uuid, fnum)] = dbl.get((g.uuid, fnum), 0) + 1
+            # per-status tallies: exactly the frames in which the pass/fail lists hold that ground truth with that status
+            want_status = {}
+            for fr in frs:
+                fnum = int(fr.frame_name)
+                pf_ = fr.pass_fail_result
+                for r in pf_.tp_object_results:
+                    want_status.setdefault(r.ground_truth_object.uuid, {"TP": [], "FP": [], "TN": [], "FN": []})["TP"].append(fnum)
+                for r in pf_.fp_object_results:
+                    if r.ground_truth_object is not None:
+                        want_status.setdefault(r.ground_truth_object.uuid, {"TP": [], "FP": [], "TN": [], "FN": []})["FP"].append(fnum)
+                for g in pf_.tn_objects:
+                    want_status.setdefault(g.uuid, {"TP": [], "FP": [], "TN": [], "FN": []})["TN"].append(fnum)
+                for g in pf_.fn_objects:
+                    want_status.setdefault(g.uuid, {"TP": [], "FP": [], "TN": [], "FN": []})["FN"].append(fnum)
+            got_status = {s.uuid: {"TP": sorted(s.tp_frame_nums), "FP": sorted(s.fp_frame_nums), "TN": sorted(s.tn_frame_nums),
+                                   "FN": sorted(s.fn_frame_nums)} for s in statuses}
+            for u, w in want_status.items():
+                w = {k: sorted(v) for k, v in w.items()}
+                if got_status.get(u) != w:
+                    ctx.violate("C19", "object_status_tallies", "status frames of a ground truth differ from the frames' pass/fail lists",
+                                {"got": got_status.get(u), "want": w}, index)
+                    break
+            if set(got_status) - set(want_status):
+                ctx.violate("C19", "object_status_tallies", "a status record exists for a ground truth that is in no pass/fail list", {}, index)
             seen_uuid = set()
             for s in statuses:
                 if s.uuid in seen_uuid:
